@@ -15,6 +15,7 @@ import (
 	"strconv"
 	"strings"
 	"time"
+	"unicode/utf8"
 )
 
 // FilterFunc is a function that can be used as a filter
@@ -1119,7 +1120,7 @@ func length(v interface{}) (int, error) {
 
 	switch value := v.(type) {
 	case string:
-		return len(value), nil
+		return utf8.RuneCountInString(value), nil
 	case []interface{}:
 		return len(value), nil
 	case map[string]interface{}:
@@ -1129,7 +1130,9 @@ func length(v interface{}) (int, error) {
 	// Use reflection for other types
 	rv := reflect.ValueOf(v)
 	switch rv.Kind() {
-	case reflect.Array, reflect.Slice, reflect.Map, reflect.String:
+	case reflect.String:
+		return utf8.RuneCountInString(rv.String()), nil
+	case reflect.Array, reflect.Slice, reflect.Map:
 		return rv.Len(), nil
 	}
 
@@ -1382,8 +1385,8 @@ func (e *CoreExtension) filterFirst(value interface{}, args ...interface{}) (int
 
 	switch v := value.(type) {
 	case string:
-		if len(v) > 0 {
-			return string(v[0]), nil
+		if runes := []rune(v); len(runes) > 0 {
+			return string(runes[0]), nil
 		}
 		return "", nil
 	case []interface{}:
@@ -1407,9 +1410,8 @@ func (e *CoreExtension) filterFirst(value interface{}, args ...interface{}) (int
 	rv := reflect.ValueOf(value)
 	switch rv.Kind() {
 	case reflect.String:
-		s := rv.String()
-		if len(s) > 0 {
-			return string(s[0]), nil
+		if runes := []rune(rv.String()); len(runes) > 0 {
+			return string(runes[0]), nil
 		}
 		return "", nil
 	case reflect.Array, reflect.Slice:
@@ -1436,8 +1438,8 @@ func (e *CoreExtension) filterLast(value interface{}, args ...interface{}) (inte
 
 	switch v := value.(type) {
 	case string:
-		if len(v) > 0 {
-			return string(v[len(v)-1]), nil
+		if runes := []rune(v); len(runes) > 0 {
+			return string(runes[len(runes)-1]), nil
 		}
 		return "", nil
 	case []interface{}:
@@ -1451,9 +1453,8 @@ func (e *CoreExtension) filterLast(value interface{}, args ...interface{}) (inte
 	rv := reflect.ValueOf(value)
 	switch rv.Kind() {
 	case reflect.String:
-		s := rv.String()
-		if len(s) > 0 {
-			return string(s[len(s)-1]), nil
+		if runes := []rune(rv.String()); len(runes) > 0 {
+			return string(runes[len(runes)-1]), nil
 		}
 		return "", nil
 	case reflect.Array, reflect.Slice:
@@ -1527,6 +1528,7 @@ func (e *CoreExtension) filterSlice(value interface{}, args ...interface{}) (int
 
 	// Default length is to the end
 	length := -1
+	hasLength := false
 	if len(args) > 1 {
 		// Make sure we can convert the second argument to an integer
 		if args[1] != nil {
@@ -1534,6 +1536,7 @@ func (e *CoreExtension) filterSlice(value interface{}, args ...interface{}) (int
 			if err != nil {
 				return nil, err
 			}
+			hasLength = true
 		}
 	}
 
@@ -1560,12 +1563,12 @@ func (e *CoreExtension) filterSlice(value interface{}, args ...interface{}) (int
 
 		// Calculate end index
 		end := runeCount
-		if length >= 0 {
+		if hasLength && length >= 0 {
 			end = start + length
 			if end > runeCount {
 				end = runeCount
 			}
-		} else if length < 0 {
+		} else if hasLength {
 			// Negative length means count from the end
 			end = runeCount + length
 			if end < start {
@@ -1592,12 +1595,12 @@ func (e *CoreExtension) filterSlice(value interface{}, args ...interface{}) (int
 
 		// Calculate end index
 		end := count
-		if length >= 0 {
+		if hasLength && length >= 0 {
 			end = start + length
 			if end > count {
 				end = count
 			}
-		} else if length < 0 {
+		} else if hasLength {
 			// Negative length means count from the end
 			end = count + length
 			if end < start {
@@ -1631,12 +1634,12 @@ func (e *CoreExtension) filterSlice(value interface{}, args ...interface{}) (int
 
 		// Calculate end index
 		end := runeCount
-		if length >= 0 {
+		if hasLength && length >= 0 {
 			end = start + length
 			if end > runeCount {
 				end = runeCount
 			}
-		} else if length < 0 {
+		} else if hasLength {
 			// Negative length means count from the end
 			end = runeCount + length
 			if end < start {
@@ -1663,12 +1666,12 @@ func (e *CoreExtension) filterSlice(value interface{}, args ...interface{}) (int
 
 		// Calculate end index
 		end := count
-		if length >= 0 {
+		if hasLength && length >= 0 {
 			end = start + length
 			if end > count {
 				end = count
 			}
-		} else if length < 0 {
+		} else if hasLength {
 			// Negative length means count from the end
 			end = count + length
 			if end < start {
